@@ -165,7 +165,7 @@ def channel_full(ch):
     return ch[:]
 
 
-def snapshot(tf, with_data=True, scaled=True):
+def snapshot(tf, with_data=True, scaled=True, with_chunks=False):
     """Comparable snapshot of a TdmsFile (opened with any options)."""
     snap = {'root': props_snapshot(tf.properties), 'groups': [], 'channels': {}}
     for g in tf.groups():
@@ -184,6 +184,16 @@ def snapshot(tf, with_data=True, scaled=True):
                         ent['ends'] = (scalar_image(c[0]), scalar_image(c[-1]))
                     except Exception as ex:
                         ent['ends'] = ('raises', type(ex).__name__)
+                if scaled and with_chunks:
+                    try:
+                        parts = []
+                        for chunk in c.data_chunks():
+                            first = image(chunk[:])
+                            second = image(chunk[:])          # the same chunk object read twice
+                            parts.append(second if img_equal(first, second) else ('chunk-read-twice-differs',))
+                        ent['chunks'] = parts
+                    except Exception as ex:
+                        ent['chunks'] = ('raises', type(ex).__name__)
             snap['channels'][c.path] = ent
     return snap
 
